@@ -1,4 +1,6 @@
 import ArimModel.Chunk
+import ArimProofs.Tie.C02
+import ArimProofs.Tie.C01
 import ArimProofs.Lemmas.Chunk
 /-! # C13 — results do not depend on threads, block sizes or completion order
 
@@ -621,5 +623,40 @@ example (body : Nat → Nat) (s : Nat → Nat) (ops : List (Nat × Nat))
     (h : Interleaving ([[0, 2], [3, 1]].map (prangeOps body)) ops) :
     runOps overwrite s ops = runOps overwrite s (prangeOps body (List.range 4)) :=
   prange_threads body s 4 [[0, 2], [3, 1]] (by decide) ops h
+
+
+/-! ## The kernels as translated from the source on this run
+
+The translator (`harness/py2lean.py`, cell mode) accepts a numba kernel only if every iteration of its loop nest over
+output cells reads inputs and its *own* output cell and writes that cell only (an access `out[i', j']` with other indices
+is refused). So the per-cell definitions `Src.das_*`, `Src.find_minimum_times_cell`, `Src.distance_pairwise_cell`
+(`Generated/SrcC02.lean`, `SrcC01.lean`, regenerated on every run) are bodies to which the schedule-independence theorems
+above apply as they stand. -/
+section OnSource
+open Arim.Das Arim.Tie.C02
+
+/-- **delay-and-sum, any split of the image points over numba threads, any interleaving of their writes**: the result
+array holds, at every image point, the value of the translated per-point kernel -/
+theorem src_das_prange_threads {α β : Type} [Add α] [Sub α] [Mul α] [Div α] [Neg α]
+    (o : Src.Ops α) (d : Data α β) (wt : Nat → Nat → β) (tx rx : Nat → Nat) (ltx lrx : Nat → Nat → α)
+    (invdt t0 : α) (fill : β) (N n numpoints : Nat) (result0 : Nat → β)
+    (parts : List (List Nat)) (hparts : parts.flatten.Perm (List.range numpoints)) (ops : List (Nat × β))
+    (h : Interleaving (parts.map (prangeOps (fun pt => Src.das_noamp_nearest o d wt tx rx ltx lrx invdt t0 fill N n pt))) ops) :
+    runOps overwrite result0 ops =
+      fun pt => if pt < numpoints then Src.das_noamp_nearest o d wt tx rx ltx lrx invdt t0 fill N n pt else result0 pt := by
+  rw [prange_threads _ result0 numpoints parts hparts ops h, prange_independent _ result0 numpoints _ (List.Perm.refl _)]
+
+/-- **min-plus product, any block size, any number of workers, any completion order**: every output cell holds the
+value of the translated per-cell kernel (entered with the initial `(inf, -1)`), cells outside the output are untouched -/
+theorem src_find_minimum_times_tiled {α : Type} [LinearOrder α] [Add α] [Sub α] [Mul α] [Div α] [Neg α]
+    (o : Src.Ops α) (t1 t2 : Nat → Nat → α) (inf : α) (n m p block : Nat) (hb : 0 < block) (hm : 0 < m)
+    (s : Nat × Nat → α × Int) (ops : List ((Nat × Nat) × (α × Int)))
+    (h : Interleaving ((minTimesTiles n m p block).map
+      (tileOps (fun i j => Src.find_minimum_times_cell o t1 t2 inf (-1) m i j))) ops) (i j : Nat) :
+    runOps overwrite s ops (i, j) =
+      if i < n ∧ j < p then Src.find_minimum_times_cell o t1 t2 inf (-1) m i j else s (i, j) :=
+  tiled_result _ s n m p block hb hm ops h i j
+
+end OnSource
 
 end Arim.C13
